@@ -126,3 +126,74 @@ _pair_ob(("assignment", "operator1"), ("FortranInterface", "FortranInterface"))
 _pair_ob(("empty", "empty"), ("FortranInterface", "FortranInterface"))
 _pair_ob(("empty", "ident"), ("FortranInterface", "FortranInterface"))
 _pair_ob(("ident", "ident", "ident"), ("FortranSubroutine", "FortranSubroutine", "FortranSubroutine"))
+
+
+# ---------------------------------------------------------------------------------------
+# O1b: equal names across entity classes: whenever the real get_dir() puts two entities in one
+# directory they must get different stems (classes paired exhaustively, names symbolic in case)
+# ---------------------------------------------------------------------------------------
+XCLASSES = ["FortranModule", "FortranSubmodule", "FortranProgram", "FortranSubroutine", "FortranFunction", "FortranType",
+            "FortranInterface", "FortranBlockData", "FortranModuleProcedureImplementation"]
+
+
+def _xitem(sf, clsname, name):
+    cls = getattr(sf, clsname)
+    it = object.__new__(cls)
+    it.name = name
+    it.parent = object.__new__(sf.FortranModule)
+    from fv.props.c05 import real_obj
+    it.obj = real_obj(clsname) or {"FortranInterface": "interface"}.get(clsname, "proc")
+    if clsname == "FortranInterface":
+        it.generic = True
+    return it
+
+
+def replay_xnames(w):
+    import ford.sourceform as sf
+
+    ns = sf.NameSelector()
+    a, b = _xitem(sf, w["classes"][0], w["names"][0]), _xitem(sf, w["classes"][1], w["names"][1])
+    sa, sb = ns.get_name(a), ns.get_name(b)
+    bad = a.get_dir() == b.get_dir() and a.get_dir() is not None and sa.lower() == sb.lower()
+    return bad, {"classes": w["classes"], "names": w["names"], "dirs": [a.get_dir(), b.get_dir()], "stems": [sa, sb]}
+
+
+@obligation("C10", "O1b.same-name-across-classes", engine="SX", timeout=1800)
+def xclasses(ctx):
+    """for every pair of entity classes: two entities with the same name (any letter case) that the real get_dir()
+    places in one directory obtain different stems"""
+    import ford.sourceform as sf
+
+    ctx.encode_fn(sf.NameSelector.get_name)
+    ctx.encode_fn(sf.FortranBase.get_dir)
+    ctx.bounds.update({"class_pairs": len(XCLASSES) ** 2, "names": "solver in 3 letter cases, independently"})
+    npairs = 0
+    for ca in XCLASSES:
+        for cb in XCLASSES:
+            def h(E, ca=ca, cb=cb):
+                ns = sf.NameSelector()
+                ns._counts = S.SymDict()
+                na = S.enum_str(E, "na", ["solver", "Solver", "SOLVER"])
+                nb = S.enum_str(E, "nb", ["solver", "Solver", "SOLVER"])
+                a, b = _xitem(sf, ca, na), _xitem(sf, cb, nb)
+                h.state = (na, nb)
+                sa, sb = ns.get_name(a), ns.get_name(b)
+                E.reachable("named")
+                if a.get_dir() is not None and a.get_dir() == b.get_dir():
+                    E.reachable("same-dir")
+                    x, y = SymStr.lift(sa).lower(), SymStr.lift(sb).lower()
+                    E.require(sym.mk_bool(z3.Not(x.eq_t(y))), "two entities of one directory share a stem (ignoring case)")
+
+            with patch.patched(sf):
+                E = sym.Engine(ctx, max_paths=2000, incremental=True)
+                found = E.explore(h)
+                for label, m, pc in found[:1]:
+                    na, nb = h.state
+                    ctx.report(label, {"classes": [ca, cb], "names": [S.enum_value(m, na), S.enum_value(m, nb)]}, replay_xnames)
+                if E.reached.get("same-dir"):
+                    npairs += 1
+    if npairs < 5:
+        ctx.inconclusive.append(f"vacuity: only {npairs} class pairs share a directory")
+    else:
+        ctx.twins += 1
+    ctx.sample({"classes": XCLASSES, "pairs_sharing_a_directory": npairs})
